@@ -439,6 +439,8 @@ def r03_6(ctx):
 def run(ctx):
     from .sweep import r03_7 as _r03_7
     _r03_7(ctx)
+    from .sweep import r03_8 as _r03_8
+    _r03_8(ctx)
     # under spawn / forkserver the worker object reaches the child by pickling: what __reduce__ writes must be what the
     # rebuild callable binds, position by position (a handshake queue that is dropped = a worker that never waits for the verdict)
     from .reduce import r12_1 as _r12_1
@@ -461,6 +463,8 @@ def run(ctx):
 
 _P = 'billiard/pool.py'
 MUTANTS = [
+    ('nack-ends-the-worker', 'billiard/pool.py', '                        if not confirm:\n                            continue  # received NACK', '                        if not confirm:\n                            break  # received NACK', 'R03.8'),
+    ('send_ack-wired-the-wrong-way-round', 'billiard/pool.py', '                send_ack=self.send_ack if self.synack else None,\n                correlation_id=correlation_id,', '                send_ack=None if self.synack else self.send_ack,\n                correlation_id=correlation_id,', 'R03.8'),
     ('cancel-drops-the-cache-entry', _P, "        \"\"\"Only works if synack is used.\"\"\"\n        self._cancelled = True\n",
      "        \"\"\"Only works if synack is used.\"\"\"\n        self._cancelled = True\n        self.discard()\n", 'R03.5'),
     ('accept-callback-outside-the-handle-lock', _P,
